@@ -1681,6 +1681,11 @@ func (d *DotGit) PackRefs() (err error) {
 		if err != nil && !os.IsNotExist(err) {
 			return err
 		}
+		if err == nil {
+			// like RemoveRef: do not leave the emptied directories of
+			// nested references behind, they block their parent name
+			d.removeEmptyRefDirs(ref.Name())
+		}
 	}
 
 	return nil
